@@ -151,3 +151,7 @@ func writeFailEvidence(verif, prop, tier string, seed int64, start time.Time, ms
 func init() {
 	claim("C04", "W1", "M1", "F1", "F2", "F3", "W2", "W4", "W5")
 }
+
+func init() {
+	claim("C06", "P1", "P2", "M2", "M1", "W1")
+}
